@@ -86,6 +86,11 @@ pub mod methods {
 
 //@@ extract uri_encode file=crates/s3s/src/sig_v4/methods.rs item="fn uri_encode" rewrites=attr,ret,refpat,smallvec
 //@@ extract uri_encode_string file=crates/s3s/src/sig_v4/methods.rs item="fn uri_encode_string" rewrites=attr,ret
+/// `str::eq_ignore_ascii_case` (not used by the code under contract; declared so that a change to it fails a clause instead of
+/// leaving the unit undecided): equality of the ASCII-lower-cased texts, as an uninterpreted function
+pub uninterp spec fn ascii_lower(s: Seq<char>) -> Seq<char>;
+pub assume_specification[ str::eq_ignore_ascii_case ](a: &str, b: &str) -> (r: bool)
+    ensures r == (ascii_lower(a@) == ascii_lower(b@));
 //@@ extract is_skipped_header file=crates/s3s/src/sig_v4/methods.rs item="fn is_skipped_header" rewrites=attr,ret
 //@@ extract is_skipped_query_string file=crates/s3s/src/sig_v4/methods.rs item="fn is_skipped_query_string" rewrites=attr,ret
 }
